@@ -29,21 +29,56 @@ Theorem C14_one_record_per_cell : forall n t taxa grp gvm nenv nrep sde sdr sdx 
 Proof. exact phenotype_cells. Qed.
 Print Assumptions C14_one_record_per_cell.
 
-(** The trial covers min(nenv, len(nrep)) environments — all [nenv] of them whenever nenv was not raised after the
-    replicate counts were stored ... *)
-Theorem C14_all_environments_partial : forall n t taxa grp gvm nenv nrep sde sdr sdx flat recs,
+(** The trial covers all [nenv] environments in force at the call, environment e with the e-th stored replicate count
+    (full strength since the repair of C14-stale-nrep-after-nenv / C14-short-nrep-fewer-environments, commits e2384507 and
+    c6ec4108: a call that returns has a replicate count for every environment) ... *)
+Theorem C14_all_environments : forall n t taxa grp gvm nenv nrep sde sdr sdx flat recs,
   phenotype n t taxa grp gvm nenv nrep sde sdr sdx flat = Some recs ->
-  exists ds, parse_envs (firstn nenv nrep) n t flat = Some (ds, []) /\ length ds = Nat.min nenv (length nrep) /\
-             (forall nenv0 a, nrep = nrep_vec nenv0 a -> (forall l, a = NArr l -> length l = nenv0) -> (nenv <= nenv0)%nat -> length ds = nenv).
+  exists ds, parse_envs (firstn nenv nrep) n t flat = Some (ds, []) /\ length ds = nenv /\
+             map (fun ed : envdraw => length (snd ed)) ds = firstn nenv nrep.
 Proof. exact phenotype_envs. Qed.
-Print Assumptions C14_all_environments_partial.
+Print Assumptions C14_all_environments.
 
-(** ... finding C14-stale-nrep-after-nenv: nrep broadcast for nenv = 1, then nenv := 3 — environments 2 and 3 get no record *)
-Theorem C14_all_environments_refuted :
-  exists recs, phenotype 1 1 None None [[1]] 3 (nrep_vec 1 (NScalar 1)) [0] [0] [0] [[0]; [0]; [0]] = Some recs /\
+(** ... the stored replicate counts follow a reassignment of nenv: an integer nrep is re-broadcast, so is a uniform
+    array; an array of the right length is kept; a non-uniform array of another length is kept (and refused by the call
+    when it is too short) ... *)
+Theorem C14_nrep_follows_nenv : forall nenv0 a nenv',
+  (0 < nenv0)%nat -> (forall l, a = NArr l -> length l = nenv0) ->
+  let attr := nrep_attr_of nenv0 a (Some nenv') in
+  (forall k, a = NScalar k -> attr = repeat k nenv') /\
+  (forall l, a = NArr l -> nenv0 = nenv' -> attr = l) /\
+  (forall l h, a = NArr l -> uniform l = true -> hd_error l = Some h -> attr = repeat h nenv') /\
+  (forall l, a = NArr l -> nenv0 <> nenv' -> uniform l = false -> attr = l).
+Proof. exact nrep_attr_spec. Qed.
+Print Assumptions C14_nrep_follows_nenv.
+
+(** ... so a protocol built with an integer nrep = k and any nenv0, whose nenv is then set to nenv', simulates nenv'
+    environments with k replicates each: n * nenv' * k records. *)
+Theorem C14_reassigned_nenv_all_environments : forall n t taxa grp gvm nenv0 k nenv' sde sdr sdx flat recs,
+  (0 < nenv0)%nat -> labels_ok n taxa grp -> length gvm = n ->
+  phenotype n t taxa grp gvm nenv' (nrep_attr_of nenv0 (NScalar k) (Some nenv')) sde sdr sdx flat = Some recs ->
+  exists ds, parse_envs (repeat k nenv') n t flat = Some (ds, []) /\ length ds = nenv' /\
+             map (fun ed : envdraw => length (snd ed)) ds = repeat k nenv' /\ length recs = (n * (nenv' * k))%nat.
+Proof. exact phenotype_after_set_nenv. Qed.
+Print Assumptions C14_reassigned_nenv_all_environments.
+
+(** repaired defect C14-stale-nrep-after-nenv: the former code ([old_nrep_attr_of]: the nenv setter left the stored array
+    alone; [old_phenotype]: no length check) -- nrep broadcast for nenv = 1, then nenv := 3: environments 2 and 3 got no record *)
+Theorem C14_old_all_environments_refuted :
+  exists recs, old_phenotype 1 1 None None [[1]] 3 (old_nrep_attr_of 1 (NScalar 1) (Some 3%nat)) [0] [0] [0] [[0]; [0]; [0]] = Some recs /\
                length recs = 1%nat /\ filter (cell_is 2 1) recs = [] /\ filter (cell_is 3 1) recs = [].
-Proof. exact phenotype_stale_nrep_refuted. Qed.
-Print Assumptions C14_all_environments_refuted.
+Proof. exact old_phenotype_stale_nrep_refuted. Qed.
+Print Assumptions C14_old_all_environments_refuted.
+
+(** repaired defect C14-short-nrep-fewer-environments: the former code with nrep = [1; 2] stored for nenv = 2, then
+    nenv := 3, returned a trial without any record of environment 3; the code in force refuses the call *)
+Theorem C14_old_short_nrep_refuted :
+  let flat := [[0]; [0]; [0];  [0]; [0]; [0]; [0]; [0]] in
+  (exists recs, old_phenotype 1 1 None None [[1]] 3 (old_nrep_attr_of 2 (NArr [1; 2]%nat) (Some 3%nat)) [0] [0] [0] flat = Some recs /\
+                length recs = 3%nat /\ forall r, filter (cell_is 3 r) recs = []) /\
+  phenotype 1 1 None None [[1]] 3 (nrep_attr_of 2 (NArr [1; 2]%nat) (Some 3%nat)) [0] [0] [0] flat = None.
+Proof. exact old_phenotype_short_nrep_refuted. Qed.
+Print Assumptions C14_old_short_nrep_refuted.
 
 (** With all noise variances zero every record equals (pointwise, as rationals) the true genotypic value of the taxon
     whose labels it carries — for all draws. *)
@@ -128,45 +163,34 @@ Theorem C14_phenotyped_not_missing : forall ug hg tcols names rows gtx gtg tx tg
 Proof. exact estimate_phenotyped_not_missing. Qed.
 Print Assumptions C14_phenotyped_not_missing.
 
-(** ... and it gets the arithmetic mean over all of its records, PROVIDED no group column is used or every taxon's
-    records carry one group label, null or not ([single_key]).  Without the guard the clause is false: *)
-Theorem C14_aligned_to_genotype_order_partial : forall ug hg tcols names rows gtx gtg tx tg tr m,
+(** ... and it gets the arithmetic mean over ALL of its records, with or without a group column and whatever the group
+    labels (full strength since the repair of C14-join-ignores-group, commit 19866ce8: with a genotype matrix the records
+    are grouped by the taxon label alone). *)
+Theorem C14_aligned_to_genotype_order : forall ug hg tcols names rows gtx gtg tx tg tr m,
   estimate ug hg tcols names rows (Some (Some gtx, gtg)) = Some (tx, tg, tr, m) ->
   tx = gtx /\ tg = gtg /\ tr = tcols /\ length m = length gtx /\
   exists sel, resolve tcols names = Some sel /\
-  (ug = false \/ single_key ug rows ->
    forall i x, nth_error gtx i = Some x -> (exists r, In r rows /\ t_taxa r = x) ->
      let recs := filter (of_taxon x) rows in
      recs <> [] /\
-     nth_error m i = Some (Some (map (fun j => sumQ (map (fun r => nth j (t_val r) 0) recs) / inject_Z (Z.of_nat (length recs))) sel))).
-Proof. exact estimate_aligned_partial. Qed.
-Print Assumptions C14_aligned_to_genotype_order_partial.
+     nth_error m i = Some (Some (map (fun j => sumQ (map (fun r => nth j (t_val r) 0) recs) / inject_Z (Z.of_nat (length recs))) sel)).
+Proof. exact estimate_aligned_full. Qed.
+Print Assumptions C14_aligned_to_genotype_order.
 
-(** finding C14-join-ignores-group: a taxon recorded in two groups gets the mean of its last group only *)
-Theorem C14_aligned_to_genotype_order_refuted :
+(** repaired defect C14-join-ignores-group: the former code ([old_estimate]: group by (taxa, taxa_grp), join by label,
+    last group wins) gave a taxon recorded in two groups the mean of its last group only *)
+Theorem C14_old_aligned_to_genotype_order_refuted :
   exists (rows : list trow) (gtx : list str) tx tg tr m,
-    estimate true true ["y"%string] ["y"%string] rows (Some (Some gtx, None)) = Some (tx, tg, tr, m) /\
+    old_estimate true true ["y"%string] ["y"%string] rows (Some (Some gtx, None)) = Some (tx, tg, tr, m) /\
     exists i x, nth_error gtx i = Some x /\ (exists r, In r rows /\ t_taxa r = x) /\
       let recs := filter (of_taxon x) rows in
       exists got, nth_error m i = Some (Some [got]) /\
         ~ got == sumQ (map (fun r => nth 0 (t_val r) 0) recs) / inject_Z (Z.of_nat (length recs)).
-Proof. exact estimate_join_refuted. Qed.
-Print Assumptions C14_aligned_to_genotype_order_refuted.
+Proof. exact old_estimate_join_refuted. Qed.
+Print Assumptions C14_old_aligned_to_genotype_order_refuted.
 
-(** what the join does with a group column in general: among the groups in which a taxon was recorded, the one with
-    the greatest group label (integers in order, the null label last) supplies the value (the faithful reading of dict(zip(...)) over the sorted group table) *)
-Theorem C14_join_takes_last_group : forall hg tcols names rows gtx gtg tx tg tr m,
-  estimate true hg tcols names rows (Some (Some gtx, gtg)) = Some (tx, tg, tr, m) ->
-  exists sel, resolve tcols names = Some sel /\
-  forall i x g, nth_error gtx i = Some x ->
-    (exists r, In r rows /\ t_taxa r = x /\ t_grp r = g) ->
-    (forall r, In r rows -> t_taxa r = x -> ole (t_grp r) g) ->
-    nth_error m i = Some (Some (mean_rows sel (members true (x, g) rows))).
-Proof. exact estimate_join_last_group. Qed.
-Print Assumptions C14_join_takes_last_group.
-
-(** repaired defect C14-null-group-drops-records: the formula used before commit 187dc882 (groupby dropna=True, modelled by
-    [estimate_dropna]) reported a phenotyped taxon of an ungrouped population as missing *)
+(** repaired defect C14-null-group-drops-records: the formula used before commit 187dc882 (groupby dropna=True on the former
+    group-by keys, modelled by [estimate_dropna]) reported a phenotyped taxon of an ungrouped population as missing *)
 Theorem C14_phenotyped_not_missing_dropna_refuted :
   exists (rows : list trow) (gtx : list str) tx tg tr m,
     estimate_dropna true true ["y"%string] ["y"%string] rows (Some (Some gtx, None)) = Some (tx, tg, tr, m) /\
@@ -175,21 +199,22 @@ Proof. exact estimate_dropna_refuted. Qed.
 Print Assumptions C14_phenotyped_not_missing_dropna_refuted.
 
 (** non-vacuity: a 2-taxon, 1-trait, 2-environment trial (1 and 2 replicates) with zero noise produces records; the
-    label/shape hypotheses hold; a table satisfies [single_key] with a group column; (0,1] targets exist *)
+    label/shape hypotheses hold; an estimate against a genotype matrix of a taxon recorded in two groups exists; an
+    integer nrep re-broadcast after a reassignment of nenv yields a trial; (0,1] targets exist *)
 Example C14_hyps_satisfiable :
   let gvm := [[1]; [2 # 1]] in
   let flat := [[0]; [0]; [0; 0];   [0]; [0]; [0; 0]; [0]; [0; 0]] in
   (exists recs, phenotype 2 1 (Some ["b"; "a"]%string) None gvm 2 (nrep_vec 2 (NArr [1; 2]%nat)) [0] [0] [0] flat = Some recs /\ length recs = 6%nat)
   /\ labels_ok 2 (Some ["b"; "a"]%string) None /\ length gvm = 2%nat /\ Forall (fun v => length v = 1%nat) gvm /\ zero_vec [0]
   /\ Forall (env_ok 2 1) [([0], [([0], [[0]; [0]])])]
-  /\ single_key true [("a"%string, Some 1%Z, [1]); ("a"%string, Some 1%Z, [3]); ("b"%string, Some 2%Z, [5])]
-  /\ (exists o, estimate true true ["y"%string] ["y"%string] [("a"%string, Some 1%Z, [1]); ("a"%string, Some 1%Z, [3])] (Some (Some ["a"%string], None)) = Some o)
+  /\ (exists o, estimate true true ["y"%string] ["y"%string] [("a"%string, Some 1%Z, [1]); ("a"%string, Some 2%Z, [3])] (Some (Some ["a"%string], None)) = Some o)
+  /\ (exists recs, phenotype 1 1 None None [[1]] 2 (nrep_attr_of 1 (NScalar 1) (Some 2%nat)) [0] [0] [0] [[0]; [0]; [0];  [0]; [0]; [0]] = Some recs /\ length recs = 2%nat)
   /\ Forall (fun x => 0 < x /\ x <= 1) (h2_vec 2 (HScalar (1 # 2))).
 Proof.
   cbv zeta. split; [eexists; split; [vm_compute; reflexivity | reflexivity]|].
   split; [split; intros l H; inversion H; reflexivity|]. split; [reflexivity|].
   split; [repeat constructor|]. split; [repeat constructor; reflexivity|].
-  split; [repeat constructor|]. split.
-  - intros r1 r2 H1 H2. cbn in H1, H2. destruct H1 as [<-|[<-|[<-|[]]]], H2 as [<-|[<-|[<-|[]]]]; cbn; intros E; try discriminate; reflexivity.
-  - split; [eexists; vm_compute; reflexivity|]. repeat constructor; cbn; lra.
+  split; [repeat constructor|].
+  split; [eexists; vm_compute; reflexivity|].
+  split; [eexists; split; [vm_compute; reflexivity | reflexivity]|]. repeat constructor; cbn; lra.
 Qed.
